@@ -130,6 +130,8 @@ def run(prog, rep):
                         if r is not None and r["k"] == "member" and r["field"] == "st_size":
                             size_src = "fstat"
                             seen["fstat_size"] += 1
+                        elif r is not None and r["k"] == "ref" and r.get("decl") == "param":
+                            size_src = "arg"              # the requested size handed down as a parameter
                         else:
                             size_src = "other"
                     if l["field"] == "shm_created" and cv(n["r"]) != 0:
